@@ -26,7 +26,7 @@ def cfg_variants(rng):
     return l1.default_cfg()
 
 
-def run_prop(prop, tier, seed, replay, nquick, nthorough, extra_cases=None, rule="", length=14, soak=None, fixed=None):
+def run_prop(prop, tier, seed, replay, nquick, nthorough, extra_cases=None, rule="", length=14, soak=None, fixed=None, fixed_mon=None):
     ck = Check(prop, tier, seed)
     ck.trusted = L1_TRUSTED
     ck.rule = rule
@@ -89,7 +89,7 @@ def run_prop(prop, tier, seed, replay, nquick, nthorough, extra_cases=None, rule
     if soak and not replay:
         run_soak(ck, binary, rng, lambda c, it, ob: mon(c, it, ob, None), dist, only=soak)
     if fixed and not replay:
-        run_soak(ck, binary, rng, lambda c, it, ob: mon(c, it, ob, None), dist, scenarios=fixed(rng))
+        run_soak(ck, binary, rng, fixed_mon or (lambda c, it, ob: mon(c, it, ob, None)), dist, scenarios=fixed(rng))
     model_correspondence(ck, [(c[1], ob) for c, ob in zip(cases, obs)], limit=(150 if tier == "quick" else 1200), name=prop, binary=binary)
     ck.distribution = dict(sorted(dist.items(), key=lambda kv: -kv[1])[:40])
     ck.samples = [{"events": [(it.get("op"), it.get("kind"), it.get("expect")) for it in c[2]]} for c in cases[-3:]]
